@@ -181,13 +181,28 @@ func tdScenarios(thorough bool) []tdScenario {
 	var out []tdScenario
 	endCauses := []string{"disconnect", "cut", "keepalive", "garbage", "server-close"}
 	// (1) idle connection, each end cause
-	for _, cause := range endCauses {
+	for _, cause := range append(append([]string{}, endCauses...), "$cut", "$disconnect", "$server-close") {
 		cause := cause
-		out = append(out, tdScenario{name: "idle/" + cause, run: func(t *tdWorld) ([]func(), map[string]bool, bool, func()) {
+		// "$...": publishes on topics starting with '$' came before (the one way a client
+		// can make the broker's fan-out fail: whatever that error path holds on to is
+		// missing at the teardown)
+		dollar := strings.HasPrefix(cause, "$")
+		cause = strings.TrimPrefix(cause, "$")
+		nm := "idle/" + cause
+		if dollar {
+			nm = "idle-after-$-publishes/" + cause
+		}
+		out = append(out, tdScenario{name: nm, run: func(t *tdWorld) ([]func(), map[string]bool, bool, func()) {
 			t.connect("W", 0, 65535, false)
 			t.subscribe("W", "will/#", 0)
 			c := t.connect("C", 0, 10, true)
 			t.subscribe("C", "t", 1)
+			if dollar {
+				c.rc.Send(&refcodec.Packet{Type: refcodec.PUBLISH, Topic: []byte("$SYS/x"), QoS: 1, ID: 9, Payload: []byte("d1")})
+				t.conns["W"].rc.Send(&refcodec.Packet{Type: refcodec.PUBLISH, Topic: []byte("$SYS/y"), Payload: []byte("d0")})
+				t.settleExcept()
+				c.rc.Take()
+			}
 			t.conns["W"].rc.Take()
 			var ends []func()
 			closeSrv := false
